@@ -67,7 +67,7 @@ impl Binary {
     #[verifier::external_body]
     pub fn from_vec(v: Vec<u8>) -> (r: Binary) ensures r.b@ == v@ { Binary { b: v } }
     #[verifier::external_body]
-    pub fn default() -> (r: Binary) ensures r.b@.len() == 0 { Binary { b: Vec::new() } }
+    pub fn default() -> (r: Binary) ensures r.b@.len() == 0, r.b == vec_of(Seq::<u8>::empty()) { Binary { b: Vec::new() } }
 }
 pub axiom fn axiom_binary_ext(a: Binary, b: Binary)
     ensures a.b@ == b.b@ ==> a == b;
